@@ -846,6 +846,44 @@ where
                         }
                         _ => vec![],
                     };
+                    // members the interface inherits: a member named by a string literal is
+                    // looked up in the parents only when the interface does not declare it itself
+                    let own_wins = !properties.is_empty()
+                        && matches!(
+                            index,
+                            TsType::TsLitType(TsLitType {
+                                lit: TsLit::Str(..),
+                                ..
+                            })
+                        );
+                    if !own_wins {
+                        self.resolve_reference(&key, obj.span(), || {
+                            interface
+                                .extends
+                                .iter()
+                                .filter_map(|parent| parent.expr.as_ident())
+                                .for_each(|parent| {
+                                    let inherited = self.resolve_indexed_access(
+                                        &TsType::TsTypeRef(TsTypeRef {
+                                            type_name: TsEntityName::Ident(parent.clone()),
+                                            type_params: None,
+                                            span: parent.span,
+                                        }),
+                                        index,
+                                    );
+                                    match inherited {
+                                        Some(TsType::TsUnionOrIntersectionType(
+                                            TsUnionOrIntersectionType::TsUnionType(TsUnionType {
+                                                types,
+                                                span: DUMMY_SP,
+                                            }),
+                                        )) => properties.extend(types),
+                                        Some(ty) => properties.push(Box::new(ty)),
+                                        None => {}
+                                    }
+                                })
+                        });
+                    }
                     if properties.len() == 1 {
                         Some((*properties.remove(0)).clone())
                     } else {
